@@ -226,6 +226,18 @@ def run(prog, tier, extra=None):
         n6 += 1
         res.instance(R6)
         arg = ch6.origin(t["args"][2])
+        slip6 = ch6.origin(t["args"][3]) if len(t["args"]) > 3 else ("unknown",)
+        if has_field(slip6, "transaction::Transaction", "from") and not has_field(slip6, "transaction::Transaction", "to"):
+            # an input given back on unwind: it returns under the coordinates it has in the ledger - those of the transaction that
+            # created it (the input's own block_id / tx_ordinal) - not those of the transaction being unwound
+            a_blk = ch6.origin(t["args"][1])
+            if has_field(a_blk, "slip::Slip", "block_id") and has_field(arg, "slip::Slip", "tx_ordinal"):
+                res.sample({"rule": R6, "site": wb6.loc(bb), "restores": "input under its own (block_id, tx_ordinal)"})
+            else:
+                res.add(Finding(R6, "C19.ordinal|restored-input", "Wallet::on_chain_reorganization gives a spent output back on unwind under (%s, %s) - the coordinates of the transaction being "
+                                "unwound - instead of the output's own block_id / tx_ordinal: the next transaction built from it names an output the ledger does not have, is "
+                                "refused, and the funds stay locked in the wallet" % (_show6(a_blk)[:25], _show6(arg)[:25]), wb6.loc(bb)))
+            continue
         if depends6(arg, set()):
             res.sample({"rule": R6, "site": wb6.loc(bb), "ordinal": _show6(arg)[:50], "verdict": "a counter that adds txs_replacements for placeholders"})
         else:
